@@ -177,9 +177,18 @@ func zzMonolith(f *zzFed, w *zzWorld, operation, variables string) (string, bool
 			vars[k] = string(vals[i])
 		}
 	}
-	ex := &zzExec{schema: &def, op: &op, vars: vars}
+	ex := &zzExec{schema: &def, op: &op, vars: vars, computed: w.computed}
 	data := ex.run(w.query)
 	return data, ex.errors > 0
+}
+
+func zzParseBoth(f *zzFed, operation string) (*ast.Document, *ast.Document) {
+	def, _ := astparser.ParseGraphqlDocumentString(f.super)
+	if err := asttransform.MergeDefinitionWithBaseSchema(&def); err != nil {
+		panic(err)
+	}
+	op, _ := astparser.ParseGraphqlDocumentString(operation)
+	return &def, &op
 }
 
 // ---- operation generator: optional parts, each consuming one unit of budget
@@ -293,7 +302,7 @@ func VerifC01Fed(depth, budget, maxDev int) {
 	verifObserveString("monolith", want)
 	data, hasErr, okj := zzDataOf(got)
 	verifAssert(okj, "response is well-formed JSON")
-	verifAssert(data == want, "gateway data equals the monolith's data")
+	verifAssert(zzCanon(data) == zzCanon(want), "gateway data equals the monolith's data")
 	verifAssert(hasErr == wantErr, "the gateway reports errors exactly when the monolith does")
 	if wantErr {
 		verifCover("with errors")
